@@ -31,6 +31,55 @@ harnesses! {
         }
         vassert!(bad == 0, "%, %=, div_euclid, rem_euclid are exact on integer operands |a|,|b| <= 256");
     }
+    /// tolerance clause on a seeded sample of 500 valid non-integer operand pairs with |a/b| <= 2^40 (ground, native, exact Fix):
+    /// r = a % b satisfies |a - r - k*b| <= 16 * 2^-106 * max(|a|,|b|) for an integer k, |r| < |b| and r has the sign of a;
+    /// q = div_euclid is an integer with -tol <= a - q*b < |b| + tol; rem_euclid == a - q*b within tol.  A finite sample.
+    fn tolerance_sample() {
+        #[cfg(not(kani))]
+        {
+            use core::convert::TryFrom;
+            use super::spec::fix::{fx, Fix};
+            let mut st: u64 = 0x13198A2E03707344;
+            let mut nx = || { st ^= st << 13; st ^= st >> 7; st ^= st << 17; st };
+            let mut mk = |r1: u64, r2: u64, r3: u64, emin: u64, span: u64| -> TwoFloat {
+                let e = emin + (r1 >> 40) % span;
+                let hi = f64::from_bits((r1 & 0x800f_ffff_ffff_ffff) | (e << 52));
+                let u = f64::from_bits(hi.to_bits() & 0x7ff0_0000_0000_0000) * 1.1102230246251565e-16;
+                let frac = match r2 % 4 { 0 => 0.0, 1 => 0.5, _ => (r3 >> 11) as f64 / 9007199254740992.0 };
+                let lo = u * frac * 0.9999 * (if r2 & 64 != 0 { -1.0 } else { 1.0 });
+                TwoFloat::try_from((hi, lo)).unwrap_or(TwoFloat::from(hi))
+            };
+            // exact k * b for an integer-valued f64 k with |k| < 2^53
+            let kb = |k: f64, b: &TwoFloat| -> Fix {
+                let m = k.abs() as u64; let vb = val(b);
+                let mut acc = Fix::zero(); let mut i = 0;
+                while i < 54 { if (m >> i) & 1 != 0 { acc = acc.add(vb.shl(i)); } i += 1; }
+                if k < 0.0 { acc.neg() } else { acc }
+            };
+            let mut bad = 0u32; let mut n = 0u32;
+            while n < 500 {
+                let b = mk(nx(), nx(), nx(), 1023 - 20, 41);
+                let be = (b.hi().to_bits() >> 52) & 0x7ff;
+                let a = mk(nx(), nx(), nx(), be - 10, 49);   // |a/b| in about [2^-11, 2^40]
+                n += 1;
+                let (va, vb) = (val(&a), val(&b));
+                let big = if va.abs().le(vb.abs()) { vb.abs() } else { va.abs() };
+                let tol_ok = |err: Fix| Fix::rel_le(err, big, 16, 106);
+                let r = a % b;
+                let k = ((a.hi() - r.hi()) / b.hi()).round();
+                if !(r.is_valid() && k.abs() < 4503599627370496.0 && tol_ok(va.sub(val(&r)).sub(kb(k, &b))) && val(&r).abs().le(vb.abs())
+                     && (r.hi() == 0.0 || (r.hi() < 0.0) == (a.hi() < 0.0))) { bad += 1; extern crate std; std::eprintln!("C19-SAMPLE-FAIL rem a=({:e},{:e}) b=({:e},{:e}) r=({:e},{:e}) k={}", a.hi(), a.lo(), b.hi(), b.lo(), r.hi(), r.lo(), k); }
+                let q = a.div_euclid(b); let e = a.rem_euclid(b);
+                let rem = va.sub(kb(q.hi(), &b).add(kb(q.lo(), &b)));
+                let slack = big.mul_small(16);       // 16 * big, compared after shifting the other side by 106
+                let ge0 = !rem.shl(106).add(slack).is_neg();
+                let ltb = rem.shl(106).sub(slack).cmp(vb.abs().shl(106)) == core::cmp::Ordering::Less;
+                if !(q.is_valid() && val(&q).is_int() && ge0 && ltb) { bad += 1; extern crate std; std::eprintln!("C19-SAMPLE-FAIL div_euclid a=({:e},{:e}) b=({:e},{:e}) q=({:e},{:e}) int={} ge0={} ltb={}", a.hi(), a.lo(), b.hi(), b.lo(), q.hi(), q.lo(), val(&q).is_int(), ge0, ltb); }
+                if !(e.is_valid() && tol_ok(val(&e).sub(rem))) { bad += 1; extern crate std; std::eprintln!("C19-SAMPLE-FAIL rem_euclid a=({:e},{:e}) b=({:e},{:e}) e=({:e},{:e})", a.hi(), a.lo(), b.hi(), b.lo(), e.hi(), e.lo()); }
+            }
+            vassert!(bad == 0, "%, div_euclid, rem_euclid within the stated tolerance on every sample pair");
+        }
+    }
     /// integers up to 2^53 in magnitude (structured sample): exact
     fn big_integers_exact() {
         let av: [i64; 8] = [9007199254740991, -9007199254740991, 4503599627370497, 123456789012345, -987654321098765, 9007199254740990, 1, -1];
